@@ -81,3 +81,13 @@ Definition w_example : registry := {|
               mkobj [115%N] (Some 0) [5] KModule PRIVATE [] [] [] (Some 4);                (* 4 p.s *)
               mkobj [102%N] (Some 4) [] KFunction PUBLIC [] [] [] (Some 4) ];              (* 5 p.s.f *)
   r_roots := [0]; r_all := [0; 1; 2; 3; 4; 5]; r_root_names := [[112%N]] |}.
+
+(* m.py:  class Base: def target(self) ; def meth(self): """L{target}"""     class Sub(Base): def meth(self): pass *)
+Definition w_inherit : registry := {|
+  r_objs := [ mkobj [109%N] None [1; 4] KModule PUBLIC [] [] [] (Some 0);                                  (* 0 m *)
+              mkobj [66%N] (Some 0) [2; 3] KClass PUBLIC [1] [4] [] (Some 0);                              (* 1 m.B *)
+              mkobj [116%N] (Some 1) [] KFunction PUBLIC [] [] [] (Some 0);                                (* 2 m.B.t *)
+              mkobj [120%N] (Some 1) [] KFunction PUBLIC [] [] [] (Some 0);                                (* 3 m.B.x *)
+              mkobj [83%N] (Some 0) [5] KClass PUBLIC [4; 1] [] [Some 1] (Some 0);                         (* 4 m.S *)
+              mkobj [120%N] (Some 4) [] KFunction PUBLIC [] [] [] (Some 0) ];                              (* 5 m.S.x *)
+  r_roots := [0]; r_all := [0; 1; 2; 3; 4; 5]; r_root_names := [[109%N]] |}.
